@@ -287,6 +287,30 @@ func sprintfMinLen(v ssa.Value) (int64, bool) {
 	return n, true
 }
 
+// isFieldWalker: an unexported function of the codec package that is handed the message buffer together with
+// a reflect.Value (the struct or field being (un)marshalled): the field codec itself and helpers split off it.
+// The accesses of all of them are derived and bounded by rule K1, which inlines the helpers.
+func isFieldWalker(fn *ssa.Function) bool {
+	pk := fnPkg(fn)
+	if pk == nil || !strings.HasSuffix(pk.Pkg.Path(), codecRel) || fn.Object() == nil || fn.Object().Exported() {
+		return false
+	}
+	hasBuf, hasVal := false, false
+	ps := fn.Signature.Params()
+	for i := 0; i < ps.Len(); i++ {
+		t := ps.At(i).Type()
+		if sl, ok := t.Underlying().(*types.Slice); ok {
+			if b, ok := sl.Elem().Underlying().(*types.Basic); ok && b.Kind() == types.Uint8 {
+				hasBuf = true
+			}
+		}
+		if t.String() == "reflect.Value" {
+			hasVal = true
+		}
+	}
+	return hasBuf && hasVal
+}
+
 func isMessageReader(fn *ssa.Function) bool {
 	if fn == nil {
 		return false
@@ -294,11 +318,7 @@ func isMessageReader(fn *ssa.Function) bool {
 	if fn.Name() == "UnmarshalUT0311L0x" || fn.Name() == "MarshalUT0311L0x" {
 		return true
 	}
-	pk := fnPkg(fn)
-	if pk != nil && strings.HasSuffix(pk.Pkg.Path(), codecRel) && (fn.Name() == "marshal" || fn.Name() == "unmarshal") {
-		return true
-	}
-	return false
+	return isFieldWalker(fn)
 }
 
 func isBufParam(v ssa.Value) bool {
@@ -424,11 +444,10 @@ func RulePanic(r *Report, p *Program, tier string, wireTypes map[string]bool) {
 func classifyPanic(p *Program, fn *ssa.Function, x *ssa.Panic) panicSite {
 	s := panicSite{fn: fn, instr: x, kind: "panic", rule: "P4"}
 	name := fn.Name()
-	pk := fnPkg(fn)
 	switch {
 	case strings.HasPrefix(name, "Must"):
 		s.ok, s.why = true, "documented Must* helper (panics by contract on its own argument)"
-	case pk != nil && strings.HasSuffix(pk.Pkg.Path(), codecRel) && (name == "marshal" || name == "unmarshal"):
+	case isFieldWalker(fn):
 		s.ok, s.why = true, "codec default for unsupported kinds: excluded for every declared layout by rule L2"
 	default:
 		// a type-switch default: all static callers must pass one of the handled types
@@ -515,8 +534,66 @@ func classifyAssert(p *Program, fn *ssa.Function, x *ssa.TypeAssert) panicSite {
 			return s
 		}
 	}
+	// field value of a kind the codec has just identified: f.Interface().(T) in the branch taken when the
+	// field's reflect.Type equals the package-level reflect.TypeOf(T) variable
+	if call, ok := v.(*ssa.Call); ok {
+		if f := call.Call.StaticCallee(); f != nil && calleeName(f) == "(reflect.Value).Interface" {
+			if gt := reflectTypeGuard(x.Block()); gt != nil && types.Identical(gt, x.AssertedType) {
+				s.ok, s.why = true, "asserted type is the field type established by the dominating reflect.Type comparison"
+				return s
+			}
+		}
+	}
 	s.detail = "unchecked type assertion " + x.AssertedType.String() + " on " + v.String()
 	return s
+}
+
+// reflectTypeOfGlobal: the Go type T of a package-level variable initialised with reflect.TypeOf(T{...}).
+func reflectTypeOfGlobal(g *ssa.Global) types.Type {
+	for _, sv := range storedInto(initFn(g), g) {
+		call, ok := sv.(*ssa.Call)
+		if !ok {
+			continue
+		}
+		if f := call.Call.StaticCallee(); f != nil && calleeName(f) == "reflect.TypeOf" && len(call.Call.Args) == 1 {
+			if mi, ok := call.Call.Args[0].(*ssa.MakeInterface); ok {
+				return mi.X.Type()
+			}
+		}
+	}
+	return nil
+}
+
+// reflectTypeGuard: blk is dominated by the true branch of `t == tX` (a reflect.Type compared with a
+// package-level reflect.TypeOf variable): returns the Go type of tX.
+func reflectTypeGuard(blk *ssa.BasicBlock) types.Type {
+	child := blk
+	for d := blk.Idom(); d != nil; child, d = d, d.Idom() {
+		ifi, ok := d.Instrs[len(d.Instrs)-1].(*ssa.If)
+		if !ok {
+			continue
+		}
+		if !((d.Succs[0] == child || dominates(d.Succs[0], child)) && len(d.Succs[0].Preds) == 1) {
+			continue
+		}
+		if d.Succs[1] == child || (dominates(d.Succs[1], child) && len(d.Succs[1].Preds) == 1) {
+			continue
+		}
+		bo, ok := ifi.Cond.(*ssa.BinOp)
+		if !ok || bo.Op != token.EQL {
+			continue
+		}
+		for _, side := range []ssa.Value{bo.X, bo.Y} {
+			if u, ok := side.(*ssa.UnOp); ok && u.Op == token.MUL {
+				if g, ok := u.X.(*ssa.Global); ok {
+					if t := reflectTypeOfGlobal(g); t != nil {
+						return t
+					}
+				}
+			}
+		}
+	}
+	return nil
 }
 
 func dynTypeOf(v ssa.Value) types.Type {
@@ -600,6 +677,16 @@ func classifyIndex(p *Program, fn *ssa.Function, in ssa.Instruction, base, idx s
 	if isMessageReader(fn) && isBufParam(base) {
 		s.ok, s.why = true, "message buffer inside the field codec: bounded by len==64 (F4) and offset+width<=64 (L3, K1)"
 		return s
+	}
+	if k, ok := base.(*ssa.Const); ok && k.Value != nil && isStringType(k.Type()) {
+		// a constant string used as a table
+		if str, err := unquote(k.Value.ExactString()); err == nil {
+			n := int64(len(str))
+			if (isConst && ci >= 0 && ci < n) || (n > 0 && valBounds(in.Block(), idx).Intersect(complement(IntervalSet{{0, n - 1}})).Empty()) {
+				s.ok, s.why = true, "index inside a constant string by a dominating range check"
+				return s
+			}
+		}
 	}
 	lb := lenBounds(in.Block(), base)
 	if isConst && ci >= 0 && ci < minOf(lb) {
@@ -1169,11 +1256,33 @@ func bcdPackingIdiom(base, idx ssa.Value) bool {
 	if !okInit || !okInc {
 		return false
 	}
-	// the loop must range over s itself (one increment per symbol, symbols <= bytes)
+	// the loop must run once per symbol of s (one increment per symbol, symbols <= bytes): either it ranges
+	// over s itself, or it counts i = 0, 1, .. while i < len(s)
 	for _, b := range ph.Block().Instrs {
 		if nx, ok := b.(*ssa.Next); ok {
 			if rg, ok := nx.Iter.(*ssa.Range); ok && rg.X == s {
 				return true
+			}
+		}
+	}
+	if ifi, ok := ph.Block().Instrs[len(ph.Block().Instrs)-1].(*ssa.If); ok {
+		if c, ok := ifi.Cond.(*ssa.BinOp); ok && c.Op == token.LSS && strOfLen(c.Y) == s {
+			if cnt, ok := c.X.(*ssa.Phi); ok && cnt.Block() == ph.Block() && len(cnt.Edges) == 2 {
+				zero, inc := false, false
+				for _, e := range cnt.Edges {
+					if k, ok := constInt(e); ok && k == 0 {
+						zero = true
+					}
+					if bo, ok := e.(*ssa.BinOp); ok && bo.Op == token.ADD && bo.X == cnt {
+						if k, ok := constInt(bo.Y); ok && k == 1 {
+							inc = true
+						}
+					}
+				}
+				// the packing index is used only in the loop body (the true branch of the bound test)
+				if zero && inc && dominates(ph.Block().Succs[0], idx.(*ssa.BinOp).Block()) {
+					return true
+				}
 			}
 		}
 	}
